@@ -12,7 +12,7 @@ def find_fn(ctx, suffix):
     out = []
     for p, b in ctx.facts.hir.items():
         sp = strip_generics(p)
-        if sp == suffix or sp.endswith("::" + suffix):
+        if sp == suffix or ("::" in suffix and sp.endswith("::" + suffix)):
             out.append(b)
     return out
 
